@@ -42,9 +42,15 @@ def build(rng):
             ab = meta["abstraction"] = "cp"
         meta["alg"] = alg
         meta["rgargs"] = [str(a) for a in args] + [str({k: v for k, v in kw.items() if not isinstance(v, torch.Tensor)})]
-        nary = (lambda shape: mixing_weight_factory(shape, param_factory=wf)) if mixing else wf
+        kw = {}
+        if mixing:
+            kw["nary_sum_weight_factory"] = lambda shape: mixing_weight_factory(shape, param_factory=wf)
+        elif rng.random() < 0.5:
+            kw["nary_sum_weight_factory"] = wf
+        # else: documented default, the n-ary sums fall back to sum_weight_factory
+        meta["nary_given"] = "nary_sum_weight_factory" in kw
         sc = rg.build_circuit(input_factory=name_to_input_layer_factory(ik, **INPUTS[ik]), sum_product=ab, sum_weight_factory=wf,
-                              nary_sum_weight_factory=nary, num_input_units=K, num_sum_units=K, num_classes=nc)
+                              num_input_units=K, num_sum_units=K, num_classes=nc, **kw)
         doms = {v: (("disc", 3) if ik == "categorical" else ("disc", 3) if ik == "binomial" else ("real",)) for v in rg.scope._set}
         return sc, doms, meta
     if kind == "image":
